@@ -48,6 +48,35 @@ pub struct Case {
     /// 3 [usb, usb], 4 [hybrid, internal, hybrid], 5 all five in reverse order
     #[serde(default)]
     pub transports: u8,
+    /// the relying party of request and stored credentials: 0 example.com, k = rp_ids()[k-1] (long
+    /// names, multi-byte characters at every phase so that every byte offset falls inside one)
+    #[serde(default)]
+    pub rp: u16,
+}
+pub fn rp_ids() -> Vec<String> {
+    let mut v: Vec<String> = vec![];
+    for n in [47usize, 48, 49, 63, 64, 65, 255, 256, 1024] {
+        v.push(format!("{}.example.com", "a".repeat(n.saturating_sub(12))));
+    }
+    for (ch, w) in [("é", 2usize), ("€", 3), ("😀", 4), ("ß", 2), ("字", 3)] {
+        for k in 0..w {
+            v.push(format!("{}{}.example", "a".repeat(k), ch.repeat(150)));
+        }
+        v.push(format!("{ch}.example.com"));
+    }
+    v.push(String::new());
+    v.push("EXAMPLE.COM".into());
+    v.push("example.com.".into());
+    v.push("xn--bcher-kva.example".into());
+    v.push("a\u{0}b".into());
+    v
+}
+fn rp_name(k: u16) -> String {
+    if k == 0 {
+        RP.to_string()
+    } else {
+        rp_ids().get(k as usize - 1).cloned().unwrap_or_else(|| RP.to_string())
+    }
 }
 pub const SLOW_SECS: [u64; 4] = [11, 31, 3601, 90_000];
 
@@ -70,35 +99,41 @@ pub fn cases(tier: Tier) -> Vec<Case> {
                         continue;
                     }
                     let api = if c.op == Op::Make { "make_credential" } else { "get_assertion" };
-                    v.push(Case { api: api.into(), cfg: c.clone(), content, memory_store, prf, unknown_type: false, empty_list: false, fault: 0, big: 0, sloppy: false, slow: 0, transports: 0 });
+                    v.push(Case { api: api.into(), cfg: c.clone(), content, memory_store, prf, unknown_type: false, empty_list: false, fault: 0, big: 0, sloppy: false, slow: 0, transports: 0, rp: 0 });
                     // store failures with every status value of the menu, for the configurations in
                     // which the user consents and a matching credential exists / none is excluded
                     if !memory_store && !prf && c.outcome == 3 && c.cap == 2 && !c.pin && c.up && matches!(content, Content::MatchViaList | Content::NoMatch) {
                         for fault in 1..=21u8 {
-                            v.push(Case { api: api.into(), cfg: c.clone(), content, memory_store, prf, unknown_type: false, empty_list: false, fault, big: 0, sloppy: false, slow: 0, transports: 0 });
+                            v.push(Case { api: api.into(), cfg: c.clone(), content, memory_store, prf, unknown_type: false, empty_list: false, fault, big: 0, sloppy: false, slow: 0, transports: 0, rp: 0 });
                         }
                     }
                     // a store that lists more than was asked for
                     if !memory_store && !prf && matches!(content, Content::MatchViaList | Content::TwoViaList | Content::OtherRpOnly) {
-                        v.push(Case { api: api.into(), cfg: c.clone(), content, memory_store, prf, unknown_type: false, empty_list: false, fault: 0, big: 0, sloppy: true, slow: 0, transports: 0 });
+                        v.push(Case { api: api.into(), cfg: c.clone(), content, memory_store, prf, unknown_type: false, empty_list: false, fault: 0, big: 0, sloppy: true, slow: 0, transports: 0, rp: 0 });
                     }
                     // a slow user: the clock advances while the user step is pending
                     if !memory_store && c.outcome == 3 && c.cap == 2 && !c.pin && c.up && matches!(content, Content::MatchViaList | Content::MatchNoList | Content::NoMatch) {
                         for slow in 1..=SLOW_SECS.len() as u8 {
-                            v.push(Case { api: api.into(), cfg: c.clone(), content, memory_store, prf, unknown_type: false, empty_list: false, fault: 0, big: 0, sloppy: false, slow, transports: 0 });
+                            v.push(Case { api: api.into(), cfg: c.clone(), content, memory_store, prf, unknown_type: false, empty_list: false, fault: 0, big: 0, sloppy: false, slow, transports: 0, rp: 0 });
                         }
                     }
                     // large user handles / ids: the response grows beyond 1 KiB and 4 KiB
                     if !prf && c.outcome == 3 && c.cap == 2 && !c.pin && c.up && matches!(content, Content::MatchViaList | Content::MatchNoList | Content::NoMatch) {
                         for big in 1..3u8 {
-                            v.push(Case { api: api.into(), cfg: c.clone(), content, memory_store, prf, unknown_type: false, empty_list: false, fault: 0, big, sloppy: false, slow: 0, transports: 0 });
+                            v.push(Case { api: api.into(), cfg: c.clone(), content, memory_store, prf, unknown_type: false, empty_list: false, fault: 0, big, sloppy: false, slow: 0, transports: 0, rp: 0 });
+                        }
+                    }
+                    // other relying-party names: long ones, multi-byte characters at every phase
+                    if c.outcome == 3 && c.cap == 2 && !c.pin && c.up && !c.rk && matches!(content, Content::MatchViaList | Content::NoMatch) {
+                        for rp in 1..=rp_ids().len() as u16 {
+                            v.push(Case { api: api.into(), cfg: c.clone(), content, memory_store, prf, unknown_type: false, empty_list: false, fault: 0, big: 0, sloppy: false, slow: 0, transports: 0, rp });
                         }
                     }
                     if matches!(content, Content::NoMatch | Content::MatchNoList | Content::TwoNoList) {
-                        v.push(Case { api: api.into(), cfg: c.clone(), content, memory_store, prf, unknown_type: false, empty_list: true, fault: 0, big: 0, sloppy: false, slow: 0, transports: 0 });
+                        v.push(Case { api: api.into(), cfg: c.clone(), content, memory_store, prf, unknown_type: false, empty_list: true, fault: 0, big: 0, sloppy: false, slow: 0, transports: 0, rp: 0 });
                     }
                     if matches!(content, Content::MatchViaList | Content::OtherRpOnly | Content::TwoViaList) && !prf {
-                        v.push(Case { api: api.into(), cfg: c.clone(), content, memory_store, prf, unknown_type: true, empty_list: false, fault: 0, big: 0, sloppy: false, slow: 0, transports: 0 });
+                        v.push(Case { api: api.into(), cfg: c.clone(), content, memory_store, prf, unknown_type: true, empty_list: false, fault: 0, big: 0, sloppy: false, slow: 0, transports: 0, rp: 0 });
                     }
                 }
             }
@@ -110,7 +145,7 @@ pub fn cases(tier: Tier) -> Vec<Case> {
                 for prf in [false, true] {
                     let cfg = C04Case { op: Op::Get, rk: false, up: true, uv: false, cap, presence_cap, outcome: 3, pin: false, arc_mutex: false, level: 0, uvreq: 0, ext: 0, wire: 0, flip: false, protocol_only: false };
                     for transports in 0..6u8 {
-                        v.push(Case { api: "get_info".into(), cfg: cfg.clone(), content: Content::NoMatch, memory_store, prf, unknown_type: false, empty_list: false, fault: 0, big: 0, sloppy: false, slow: 0, transports });
+                        v.push(Case { api: "get_info".into(), cfg: cfg.clone(), content: Content::NoMatch, memory_store, prf, unknown_type: false, empty_list: false, fault: 0, big: 0, sloppy: false, slow: 0, transports, rp: 0 });
                     }
                 }
             }
@@ -120,7 +155,7 @@ pub fn cases(tier: Tier) -> Vec<Case> {
 }
 
 fn seeds(content: Content) -> (Vec<Passkey>, Option<Vec<Vec<u8>>>) {
-    seeds_sized(content, 0)
+    seeds_sized(content, 0, RP)
 }
 fn big_len(big: u8) -> usize {
     match big {
@@ -129,10 +164,10 @@ fn big_len(big: u8) -> usize {
         _ => 3,
     }
 }
-fn seeds_sized(content: Content, big: u8) -> (Vec<Passkey>, Option<Vec<Vec<u8>>>) {
-    let own = seeded(&Seed { n: 1, rp: RP.into(), handle: Some(if big == 0 { vec![1, 2, 3] } else { vec![0x31; big_len(big)] }), counter: Some(5), hmac: Some(true) });
+fn seeds_sized(content: Content, big: u8, rp_id: &str) -> (Vec<Passkey>, Option<Vec<Vec<u8>>>) {
+    let own = seeded(&Seed { n: 1, rp: rp_id.into(), handle: Some(if big == 0 { vec![1, 2, 3] } else { vec![0x31; big_len(big)] }), counter: Some(5), hmac: Some(true) });
     let other = seeded(&Seed { n: 2, rp: "other.org".into(), handle: Some(vec![1, 2, 3]), counter: Some(5), hmac: None });
-    let own2 = seeded(&Seed { n: 3, rp: RP.into(), handle: Some(vec![4, 5]), counter: Some(9), hmac: Some(false) });
+    let own2 = seeded(&Seed { n: 3, rp: rp_id.into(), handle: Some(vec![4, 5]), counter: Some(9), hmac: Some(false) });
     match content {
         Content::TwoViaList => (vec![own.clone(), other.clone(), own2], Some(vec![cred_id(1), cred_id(3)])),
         Content::TwoNoList => (vec![own.clone(), other.clone(), own2], None),
@@ -226,7 +261,7 @@ where
         "make_credential" => {
             let ext = c.prf.then(|| make_credential::ExtensionInputs { hmac_secret: Some(true), hmac_secret_mc: None, prf: Some(prf()) });
             let uid: Vec<u8> = if c.big == 0 { vec![9, 9] } else { vec![0x39; big_len(c.big)] };
-            let mut req = mc_request(RP, &uid, list, cfg.rk, cfg.up, cfg.uv, cfg.pin, ext);
+            let mut req = mc_request(&rp_name(c.rp), &uid, list, cfg.rk, cfg.up, cfg.uv, cfg.pin, ext);
             if c.unknown_type {
                 for d in req.exclude_list.iter_mut().flatten() {
                     d.ty = passkey_types::webauthn::PublicKeyCredentialType::Unknown;
@@ -249,7 +284,7 @@ where
         }
         _ => {
             let ext = c.prf.then(|| get_assertion::ExtensionInputs { hmac_secret: None, prf: Some(prf()) });
-            let mut req = ga_request(RP, list, cfg.rk, cfg.up, cfg.uv, cfg.pin, ext);
+            let mut req = ga_request(&rp_name(c.rp), list, cfg.rk, cfg.up, cfg.uv, cfg.pin, ext);
             if c.unknown_type {
                 for d in req.allow_list.iter_mut().flatten() {
                     d.ty = passkey_types::webauthn::PublicKeyCredentialType::Unknown;
@@ -270,7 +305,7 @@ where
 }
 
 fn observe(c: &Case, via_trait: bool) -> Obs {
-    let (items, list) = seeds_sized(c.content, c.big);
+    let (items, list) = seeds_sized(c.content, c.big, &rp_name(c.rp));
     let list = if c.empty_list { Some(vec![]) } else { list };
     // on the sloppy store the list names only the credential the store does NOT list first
     let list = if c.sloppy && c.content == Content::TwoViaList { Some(vec![cred_id(1)]) } else { list };
@@ -529,7 +564,7 @@ pub fn run(ctx: &Ctx) -> Result<Run, String> {
     }
     let mut run = Run::from_stats(
         "model_checking",
-        "differential enumeration: every configuration of the C04 product at CTAP2 level (operation, rk/up/uv, verification capability, validation outcome, pin-auth) x 4 store contents x {contract store, Arc<Mutex<MemoryStore>>} x PRF extension on/off x descriptor type {public-key, unknown}, store failures of find / save / update with seven status *values* (incl. Ctap1(Success), which shares byte 0x00 with Ctap2(Ok)), a sloppy store that lists every credential of the RP whatever ids are asked for, user handles / user ids of 900 and 4000 bytes (responses beyond 1 KiB / 4 KiB), repetition histories (one of eight granted / user-denied / dropped ceremonies 8, 9, 17 and 33 times in a row on one authenticator, then each of them as a probe, against fresh authenticators), a slow user (the user step suspends once and the thread's clock - virtual, the harness's own clock_gettime - advances by 11 s, 31 s, an hour, 25 hours while it is pending), and getInfo for every capability combination x six configured transports lists (default, empty, one, a repeated one, three with a repetition, five), plus all pairs (thorough: triples) of operations on ONE authenticator with a capability change in between (verification / presence / store capability), each run once through the inherent method and once through <Authenticator as Ctap2Api> on identically seeded authenticators inside isolated worker processes (8 MiB stack, 30 s watchdog); compared: result (status byte or full response incl. RFC 6979 signature bytes; fresh ids/keys normalised), store snapshot, store/user-validation call log. Non-trivial = distinct case whose direct call reached a verdict",
+        "differential enumeration: every configuration of the C04 product at CTAP2 level (operation, rk/up/uv, verification capability, validation outcome, pin-auth) x 4 store contents x {contract store, Arc<Mutex<MemoryStore>>} x PRF extension on/off x descriptor type {public-key, unknown}, store failures of find / save / update with seven status *values* (incl. Ctap1(Success), which shares byte 0x00 with Ctap2(Ok)), a sloppy store that lists every credential of the RP whatever ids are asked for, 37 other relying-party names (47..1024 bytes, five multi-byte characters repeated at every byte phase so that every byte offset up to 300 falls inside a character, empty, upper case, trailing dot, NUL), user handles / user ids of 900 and 4000 bytes (responses beyond 1 KiB / 4 KiB), repetition histories (one of eight granted / user-denied / dropped ceremonies 8, 9, 17 and 33 times in a row on one authenticator, then each of them as a probe, against fresh authenticators), a slow user (the user step suspends once and the thread's clock - virtual, the harness's own clock_gettime - advances by 11 s, 31 s, an hour, 25 hours while it is pending), and getInfo for every capability combination x six configured transports lists (default, empty, one, a repeated one, three with a repetition, five), plus all pairs (thorough: triples) of operations on ONE authenticator with a capability change in between (verification / presence / store capability), each run once through the inherent method and once through <Authenticator as Ctap2Api> on identically seeded authenticators inside isolated worker processes (8 MiB stack, 30 s watchdog); compared: result (status byte or full response incl. RFC 6979 signature bytes; fresh ids/keys normalised), store snapshot, store/user-validation call log. Non-trivial = distinct case whose direct call reached a verdict",
         true,
         stats,
     );
